@@ -4,18 +4,18 @@
 # passes the pinned tests, runs the given quick checks against it through VERIF_REPO, then removes the worktree.
 set -u
 PATCH=$(readlink -f "$1"); TAG=$2; shift 2
-WT=/tmp/seedrun/$TAG
-rm -rf "$WT"; mkdir -p /tmp/seedrun
+WT=${SEEDRUN:-/tmp/seedrun}/$TAG
+rm -rf "$WT"; mkdir -p ${SEEDRUN:-/tmp/seedrun}
 git -C /repo worktree add -q --detach "$WT" HEAD || exit 3
 cd "$WT"
 if ! git apply "$PATCH"; then echo "RESULT $TAG patch-does-not-apply"; git -C /repo worktree remove --force "$WT"; exit 3; fi
 T=$(cargo test --workspace --no-fail-fast --offline 2>&1 | grep -E "^test result" | awk '{p+=$4; f+=$6} END {print p" passed "f" failed"}')
 echo "RESULT $TAG baseline-tests: $T"
-export VERIF_REPO="$WT" VERIF_ALT_DIR=/tmp/seedrun/alt-$TAG
+export VERIF_REPO="$WT" VERIF_ALT_DIR=${SEEDRUN:-/tmp/seedrun}/alt-$TAG
 for C in "$@"; do
   OUT=$(cd ${VERIF_HOME:-/verif} && ./check run "$C" quick 2>/dev/null | grep -E "^(OK|VIOLATION|INCONCLUSIVE|KNOWN|  what)" | head -4 | cut -c1-400)
   echo "RESULT $TAG $C :: $(echo "$OUT" | tr '\n' ' ')"
 done
 cd /
 git -C /repo worktree remove --force "$WT"
-rm -rf /tmp/seedrun/alt-$TAG-*
+rm -rf ${SEEDRUN:-/tmp/seedrun}/alt-$TAG-*
